@@ -2767,18 +2767,36 @@ class Env(cabc.MutableMapping):
 
     def _capture_for_swap(self, key, local):
         """Capture `key`'s pre-swap state so the outer scope can be
-        restored on exit. We probe the thread-local layer directly
-        instead of going through ``get`` so that a DELETE_VAR mask
-        survives a nested ``swap`` that overrides the same key with
-        a value — otherwise the mask would be silently dropped when
-        the inner ``swap`` exits.
+        restored on exit. Only the thread-local layer is ever written by
+        ``swap``, so only that layer is captured: the previous local entry
+        (which may be a DELETE_VAR mask of an enclosing ``swap``), or
+        ``NotImplemented`` when there was none. Capturing the *visible*
+        value instead would write the global value, the default or an
+        overlay value into the thread-local layer on exit.
         """
         if key in local:
             return local[key]
-        try:
-            return self[key]
-        except KeyError:
-            return NotImplemented
+        return NotImplemented
+
+    def _restore_after_swap(self, key, captured):
+        """Undo ``swap``'s thread-local override of `key`."""
+        if captured is not NotImplemented:
+            self._set_item(key, captured, thread_local=True)
+            return
+        # No thread-local entry before the swap: drop ours so that the
+        # global value (or the default) shows through again.
+        self._d.del_locally(key)
+        self._detyped = None
+        if self.get("UPDATE_OS_ENVIRON"):
+            val = self._d.get(key, DELETE_VAR)
+            detyper = self.get_detyper(key)
+            deval = None
+            if val is not DELETE_VAR and detyper is not None:
+                deval = detyper(val)
+            if deval is not None:
+                os_environ[key] = deval
+            elif key in os_environ:
+                del os_environ[key]
 
     @contextlib.contextmanager
     def swap(self, other=None, overlay=None, **kwargs):
@@ -2816,10 +2834,7 @@ class Env(cabc.MutableMapping):
                 self._overlay_stack.pop()
             # restore the values
             for k, v in old.items():
-                if v is NotImplemented:
-                    self._del_item(k, thread_local=True)
-                else:
-                    self._set_item(k, v, thread_local=True)
+                self._restore_after_swap(k, v)
             if exception is not None:
                 # plain re-raise to preserve __cause__/__context__ chains
                 raise exception
